@@ -815,7 +815,13 @@ class _SinkTransport(asyncio.DatagramTransport):
 class AdapterImpl:
     """runs `adp.` op lines on real adapter objects over scripted QUIC connections"""
 
-    ADDRS = [("10.0.0.%d" % (i + 1), 4000 + i) for i in range(8)]
+    # address ids of the line protocol.  0-3 differ in host and port; 4-9 are the neighbours of address 0
+    # that an address check must tell apart from it: same host with the port changed by +-256, with only
+    # the high byte changed, with only the low byte changed; another host with the same port; the same
+    # IPv4 host written as an IPv4-mapped IPv6 address.
+    ADDRS = [("10.0.0.1", 4000), ("10.0.0.2", 4001), ("10.0.0.3", 4002), ("10.0.0.4", 4003),
+             ("10.0.0.1", 4000 + 256), ("10.0.0.1", 4000 ^ 0x8000), ("10.0.0.1", 4001), ("10.0.0.2", 4000),
+             ("::ffff:10.0.0.1", 4000), ("10.0.0.1", 4000 - 256)]
 
     def __init__(self):
         import random
@@ -1405,6 +1411,27 @@ class World:
                 else:
                     self.notes["tokens_rejected"] += 1
                 await asyncio.sleep(r.choice([0.0, 0.005]))
+            # replay every token the server has issued so far from the neighbours of the address it was issued
+            # to: same host with the port changed by +-256 / in the high byte only / by one, another host with
+            # the same port, the IPv4 host as IPv4-mapped IPv6 (property: only that very address may use it)
+            tried = set()
+            for pause in (0.05, 0.3, 1.0):
+                await asyncio.sleep(pause)
+                inv = {v: k for k, v in self.tr.addrs.items()}
+                for tok, lab in list(self.tr.tokens.items()):
+                    host, port = inv[self.tr.issued[int(lab[1:])][0]]
+                    variants = [(host, (port + 256) % 65536), (host, (port - 256) % 65536), (host, port ^ 0x8000),
+                                (host, port + 1), ("9.9.9.9", port)]
+                    if ":" not in host:
+                        variants.append(("::ffff:" + host, port))
+                    for src in variants:
+                        if (lab, src) in tried:
+                            continue
+                        tried.add((lab, src))
+                        before = len(self.server_conns)
+                        data = build_long_initial(bytes(r.getrandbits(8) for _ in range(8)), b"\x09" * 8, tok, 1200)
+                        self.tr.server.datagram_received(data, src)
+                        self.notes["tokens_accepted" if len(self.server_conns) != before else "tokens_rejected"] += 1
         # garbage and short datagrams never matter
         for _ in range(r.randrange(0, 3)):
             self.tr.server.datagram_received(bytes(r.getrandbits(8) for _ in range(r.choice([0, 1, 20, 1300]))),
@@ -1516,8 +1543,11 @@ class World:
             for cix, addr, tok, odcid, rscid in self.tr.server.created:
                 ok = tok.startswith("s") and self.tr.issued[int(tok[1:])][0] == addr
                 if not ok:
-                    self.problem(f"server created connection {cix} for address #{addr} with token {tok} it did not "
-                                 f"issue to that address", oracle="token", kind="foreign-token-accepted")
+                    inv = {v: k for k, v in self.tr.addrs.items()}
+                    to = inv.get(self.tr.issued[int(tok[1:])][0]) if tok.startswith("s") else None
+                    self.problem(f"server created connection {cix} for a datagram from {inv.get(addr)} carrying token "
+                                 f"{tok}" + (f", which it issued to {to}" if to else ", which it never issued"),
+                                 oracle="token", kind="foreign-token-accepted")
                 elif (odcid, rscid) != self.tr.issued[int(tok[1:])][1:]:
                     self.problem(f"connection {cix} created with connection IDs that are not the sealed ones",
                                  oracle="token", kind="wrong-sealed-ids")
@@ -1541,3 +1571,124 @@ class World:
         import os as _os
         pre = ["adp.new %s" % _os.environ.get("C19_QUIRK", "0"), "adp.server %d" % (1 if self.plan.get("retry") else 0)]
         return pre + [s["line"] for s in self.tr.steps], ["ok", "ok"] + [s["out"] for s in self.tr.steps]
+
+
+# ------------------------------------------------------------- quiescence worlds
+QUIET_OWNERS = ["client", "server", "echo"]
+QUIET_SEQUENCES = {
+    "write-quiet-eof": ["write", "quiet", "eof"],
+    "fresh-quiet-eof": ["quiet", "eof"],
+    "fresh-eof": ["eof"],
+    "write-eof-same-tick": ["write", "eof"],
+    "write-quiet-close": ["write", "quiet", "close"],
+    "fresh-quiet-close": ["quiet", "close"],
+    "write-quiet-write-quiet-eof": ["write", "quiet", "write", "quiet", "eof"],
+    "write-quiet-write": ["write", "quiet", "write"],
+    "quiet-write": ["quiet", "write"],
+}
+
+
+class QuietWorld(World):
+    """one real client and a real QuicServer over a LOSSLESS (delaying, reordering) network with a long idle
+    timeout.  Writer operations of one stream are separated by quiescence: the loop runs for `QUIET` virtual
+    seconds, far longer than any ack / PTO delay and far shorter than the idle timeout, so nothing else is
+    left to send when the next operation runs.  Oracle (property text): after every operation sequence and
+    that bounded time, the peer's reader has been fed exactly the bytes written, and EOF iff EOF was written.
+
+    owner = who holds the writer: "client" (client-initiated stream), "server" (server-initiated stream),
+    "echo" (the server's writer of a client-initiated bidirectional stream)."""
+
+    QUIET = 2.0
+
+    def __init__(self, seed, owner, seq_name):
+        super().__init__(seed, {"clients": 1, "p_drop": 0.0, "p_dup": 0.0, "idle_timeout": 60.0, "retry": False,
+                                "close_modes": ["late"], "close_after": [1.0], "p_server_waiters": 0.0})
+        self.net.delays = (0.0, 0.001, 0.003, 0.01)
+        self.owner = owner
+        self.seq_name = seq_name
+        self.keep = []
+
+    def _handler(self, reader, writer):
+        proto = writer.transport.protocol
+        self.keep.append((proto, writer.transport.stream_id, reader, writer))
+
+    def peer_state(self, peer, sid):
+        rd = peer._stream_readers.get(sid)
+        if rd is None:
+            return b"", False
+        return bytes(rd._c19_fed), rd._c19_eofs > 0
+
+    def check(self, peer, sid, written, eof, after):
+        got, geof = self.peer_state(peer, sid)
+        where = f"{self.owner} writer, stream {sid}, sequence {self.seq_name}"
+        if got != written:
+            self.problem(f"{self.QUIET:.0f} s after {after} on a quiet connection the peer's reader holds {len(got)} bytes "
+                         f"but {len(written)} were written ({where})" if written.startswith(got) else
+                         f"the peer's reader holds bytes that were not written ({where})",
+                         oracle="quiet", kind="bytes-missing" if written.startswith(got) else "bytes-differ", op=after)
+        if geof != eof:
+            self.problem(f"{self.QUIET:.0f} s after {after} on a quiet connection the peer's reader "
+                         f"{'has not seen EOF although EOF was written' if eof else 'is at EOF although no EOF was written'} "
+                         f"({where}; idle timeout is {self.idle:.0f} s)", oracle="quiet",
+                         kind="eof-missing" if eof else "eof-spurious", op=after)
+
+    async def main(self):
+        from aioquic.quic.connection import QuicConnection
+        r = self.rng
+        server = self.TS(tracer=self.tr, configuration=server_configuration(idle_timeout=self.idle), retry=False,
+                         stream_handler=self._handler, post_create=self.new_server_conn)
+        self.net.attach(SERVER_ADDR, server)
+        conn = QuicConnection(configuration=client_configuration(idle_timeout=self.idle))
+        client = self.TP(conn, stream_handler=self._handler, tracer=self.tr)
+        self.net.attach(("1.2.3.1", 5000), client)
+        client.connect(SERVER_ADDR)
+        t_end = self.loop.time() + 10
+        while not (conn._handshake_confirmed and self.server_conns and self.server_conns[0]._quic._handshake_confirmed):
+            if self.loop.time() > t_end:
+                self.problem("handshake did not complete on a lossless network", oracle="harness")
+                return
+            await asyncio.sleep(0.01)
+        await asyncio.sleep(self.QUIET)
+        sp = self.server_conns[0]
+        if self.owner == "client":
+            me, peer = client, sp
+            reader, writer = await client.create_stream()
+        elif self.owner == "server":
+            me, peer = sp, client
+            reader, writer = await sp.create_stream()
+        else:
+            # the client opens a bidirectional stream with one byte; the server's writer of it is the one under test
+            me, peer = sp, client
+            _, cw = await client.create_stream()
+            self.keep.append(cw)
+            cw.write(b"?")
+            await asyncio.sleep(self.QUIET)
+            mine = [k for k in self.keep if isinstance(k, tuple) and k[0] is sp]
+            if not mine:
+                self.problem("server stream handler was not called for a client stream", oracle="harness")
+                return
+            writer = mine[0][3]
+        self.keep.append(writer)
+        sid = writer.transport.stream_id
+        written, eof, last = b"", False, "create_stream()"
+        for op in QUIET_SEQUENCES[self.seq_name]:
+            if op == "quiet":
+                await asyncio.sleep(self.QUIET)
+                self.check(peer, sid, written, eof, last)
+            elif op == "write":
+                data = bytes(r.getrandbits(8) for _ in range(r.choice([1, 40, 1500])))
+                writer.write(data)
+                written += data
+                last = "writer.write()"
+            elif op == "eof":
+                writer.write_eof()
+                eof, last = True, "writer.write_eof()"
+            elif op == "close":
+                writer.close()
+                eof, last = True, "writer.close()"
+        await asyncio.sleep(self.QUIET)
+        self.check(peer, sid, written, eof, last)
+        for vt, msg, exc in self.loop.escaped:
+            self.problem(f"exception escaped an event-loop callback at t={vt:.3f}: {msg} {exc!r}",
+                         oracle="callback", exc=type(exc).__name__ if exc else "none")
+        self.tr.on_step = None
